@@ -23,7 +23,7 @@ func (e *Engine) newFX(fn *ssa.Function, name string, c *Contract) *FX {
 	return &FX{e: e, fn: fn, name: name, c: c,
 		compSorts: map[string]string{}, knownComps: map[string]bool{}, epochConsts: map[string]Term{},
 		obCount: map[string]int{}, inputs: map[string]string{}, usesAx: map[string]bool{}, usedAssumed: map[string]bool{}, bufSlices: map[string]Term{},
-		invAssumed: map[string]bool{}, invBroken: map[string]bool{}}
+		invAssumed: map[string]bool{}, invBroken: map[string]bool{}, invStoreReach: map[string]Term{}}
 }
 
 // VerifyFunc generates the obligations of one function under its contract.
@@ -431,6 +431,9 @@ func (fx *FX) typeInvObligations(fr *frame, x exitPoint) {
 			if types.Identical(fx.fn.Signature.Results().At(n-1).Type(), types.Universe.Lookup("error").Type()) {
 				ok = IfaceIsNil(x.results[n-1].T)
 			}
+		}
+		if sr, has := fx.invStoreReach[k]; has {
+			ok = And(ok, sr)
 		}
 		fx.oblige(x.st, "post", fmt.Sprintf("type-invariant(%s)@ret#%d", ti.Type, x.idx+1), "object invariant re-established: "+ti.Text, Implies(ok, g), x.pos, nil)
 	}
